@@ -206,6 +206,9 @@ def step (st : St) (ws : List String) : St × String :=
     | some (.flush _ _ size _ _) => (st, toString size)
     | some _ => (st, "noflushable")
     | none => (st, "nostore")
+  | ["settle", name] =>
+    -- memtable flush + compaction of the engine: the identity on Spec.KV
+    if !known name then (st, "nostore") else (st, "ok")
   | ["compact", name, s, l] =>
     if !known name then (st, "nostore") else (st, compactN fuel ns name (optB s) (optB l))
   | _ => (st, "bad-op")
